@@ -7,20 +7,32 @@ recently registered waker or none if a registration is in flight that will itsel
 wake."
 
 Headline theorems about the twin (`Model/Interp.lean`): the stage functions `World.blockOnStage`
-(`block_on(Scripted{f, mode})`), `World.wakeStage` (`wake f` / `wakeref f`), the `.awWake` /
-`.dropWaker` cases of `World.runOp`, and the helpers `notifyWait1/2`, `notifyEffect`, `wakerClone`,
-`wakerDrop`.  All of them are ONE-STEP laws in arbitrary worlds, every hypothesis is explicit; the
-facts about `rt::Notify`, `rt::Mutex`, `rt::Arc` are reused from C08, C07, C11.
+(`block_on(Scripted{f, mode})`, modes 0–4), `World.wakeStage` (`wake f` / `wakeref f` / `wakeq f`),
+`World.awTakeStage` (`awtake f`), the `.awWake` / `.dropWaker` / `.wClone` / `.wakeH` cases of `World.runOp`,
+and the helpers `notifyWait1/2`, `notifyEffect`, `wakerClone`, `wakerDrop`.  All of them are ONE-STEP laws in
+arbitrary worlds, every hypothesis is explicit; the facts about `rt::Notify`, `rt::Mutex`, `rt::Arc` are reused
+from C08, C07, C11.
+
+The modes of `block_on` (`BlockOn.modes_spelled_out`): the readiness test is the flag load `pollPrim mode`
+returning `pollTarget mode` (Acquire / 1; mode 2: Relaxed / 2); the waker is registered in the mutex-protected
+slot when `slotMode mode` (modes 0, 2), else in the `AtomicWaker` (modes 1, 3, 4); mode 1 takes the
+registration back when the call returns, modes 3 and 4 leave it in the `AtomicWaker` (shared state that outlives
+the call); mode 4 is `block_on(poll_once(future))`: ONE poll, the call returns `.val 0` if the future is pending.
 
 The stages of `block_on` (`c.stage`): 0 set-up (`Arc<Notify>`), 10/11 poll (flag load), 12/30/13
-register the waker in the plain slot (mode 0, under the slot's mutex), 20–25 register it in the
-`AtomicWaker` (mode 1), 14/15 second flag check, 15/16 the two halves of `Notify::wait`, 40/45/44/43
-return.  `(w.futs.getD f {})` is the record of future `f`: its `notify` (the `rt::Notify` of the
-`block_on` in progress), `arc` (the waker's `Arc`), the mutexes `slotMutex` / `awMutex`, and the two
-flags `slot` / `awWaker` ("a waker clone sits in the slot / in the `AtomicWaker`").
-Helper lemmas: `Proofs/C20Frame.lean`, `Proofs/C20BlockOn.lean`, `Proofs/C20Waker.lean`.
+register the waker in the plain slot (under the slot's mutex), 20–25 register it in the
+`AtomicWaker`, 14/15 second flag check, 15/16 the two halves of `Notify::wait`, 40/45/44/43/46
+return the output, 41 return "pending" (mode 4).  `(w.futs.getD f {})` is the record of future `f`: its `notify`
+(the `rt::Notify` of the `block_on` in progress), `arc` (the waker's `Arc`), the mutexes `slotMutex` / `awMutex`,
+the two flags `slot` / `awWaker` ("a waker clone sits in the slot / in the `AtomicWaker`") and `awArc` /
+`awNotify`: WHICH call's waker sits in the `AtomicWaker`.  The acting thread's control record carries a waker
+between the stages of one operation: `taken` / `takenNotify` (a waker taken out of a slot, about to be woken /
+dropped) and `held` (clones kept by `wclone`).
+Helper lemmas: `Proofs/C20Frame.lean`, `Proofs/C20BlockOn.lean`, `Proofs/C20Handover.lean`,
+`Proofs/C20Waker.lean`.
 -/
 import LoomVerif.Proofs.C20BlockOn
+import LoomVerif.Proofs.C20Handover
 import LoomVerif.Proofs.C20Waker
 import LoomVerif.Props.C07
 import LoomVerif.Props.C08
@@ -29,15 +41,30 @@ import LoomVerif.Model.Check
 namespace LoomVerif
 open C20 C08
 
+/-! ## 0. the modes -/
+
+/-- the readiness test and the place of registration of each mode, spelled out -/
+theorem BlockOn.modes_spelled_out (mode : Nat) :
+    World.pollPrim mode = .load (if mode = 2 then .rlx else .acq) ∧
+    World.pollTarget mode = .val (if mode = 2 then 2 else 1) ∧
+    (World.slotMode mode = true ↔ mode = 0 ∨ mode = 2) := by
+  refine ⟨?_, ?_, ?_⟩
+  · unfold World.pollPrim; by_cases h : mode = 2 <;> simp [h]
+  · unfold World.pollTarget; by_cases h : mode = 2 <;> simp [h]
+  · unfold World.slotMode; simp
+
 /-! ## 1. `BlockOn.repolls_only_after_wake` -/
 
 /-- The future is polled at stage 10.  A step of `block_on` moves a thread into stage 10 only
 (a) from the set-up stage 0 (the first poll), (b) from stage 16 — the second half of
 `Notify::wait` on the `block_on`'s `Notify`, which returns only if its flag is set, i.e. after a
 `notifyEffect` on it (C08 `Wait.only_after_notify`, `Wait.no_other_op_notifies`) — and (c) from
-stage 15 when the flag load did not return 1 and the first half of `Notify::wait` returned
-spuriously (`st = 2`: `did_spur` goes from `false` to `true`; with `st = 1` the next stage is 16).
-At stage 15 with the flag ≠ 1 the step ALWAYS goes through `notifyWait1` — never directly to 10. -/
+stage 15 when the flag load did not return the ready value, the call is not poll-once, and the first half of
+`Notify::wait` returned spuriously (`st = 2`: `did_spur` goes from `false` to `true`; with `st = 1` the next
+stage is 16).  At stage 15 with the future pending the step ALWAYS goes through `notifyWait1` — never directly
+to 10 — or, in mode 4, to the "pending" return 41.
+(d) A poll-once call (mode 4) polls ONCE: after the set-up no stage but 16 moves a thread to stage 10, and
+stage 16 is entered only from stage 15 of a call that is not poll-once. -/
 theorem BlockOn.repolls_only_after_wake (w w' : World) (c : TCtl) (f mode : Nat)
     (h : w.blockOnStage c f mode = .ok w') :
     (c.stage ≠ 0 → c.stage ≠ 15 → c.stage ≠ 16 →
@@ -46,18 +73,24 @@ theorem BlockOn.repolls_only_after_wake (w w' : World) (c : TCtl) (f mode : Nat)
       ∃ w1, w.notifyWait2 (w.futs.getD f {}).notify = .ok w1 ∧ w' = w1.setStage 10 ∧
         ∀ s, w.exec.objs[(w.futs.getD f {}).notify]? = some (.notify s) → s.notified = true) ∧
     (c.stage = 15 →
-      ∃ w1 r, w.primEffect f (.load .acq) = .ok (w1, r) ∧
-        (r = .val 1 →
+      ∃ w1 r, w.primEffect f (World.pollPrim mode) = .ok (w1, r) ∧
+        (r = World.pollTarget mode →
           (w1.setStage 40).branch (w.arcInfo (w.futs.getD f {}).arc).obj .arcDec = .ok w') ∧
-        (r ≠ .val 1 → ∃ w2 st,
+        (r ≠ World.pollTarget mode → mode = 4 →
+          (w1.setStage 41).branch (w.arcInfo (w.futs.getD f {}).arc).obj .arcDec = .ok w') ∧
+        (r ≠ World.pollTarget mode → mode ≠ 4 → ∃ w2 st,
           w1.notifyWait1 (w.futs.getD f {}).notify = .ok (w2, st) ∧
           w' = w2.modCtl w1.tid (fun c => { c with stage := if st == 1 then 16 else 10 }) ∧
           ∀ s, w1.exec.objs[(w.futs.getD f {}).notify]? = some (.notify s) →
             ∃ a d, w2.exec.objs[(w.futs.getD f {}).notify]? =
                 some (.notify { s with lastAccess := a, didSpur := d }) ∧
               ((st = 1 ∧ d = s.didSpur) ∨
-                (st = 2 ∧ d = true ∧ s.didSpur = false ∧ s.spurious = true)))) := by
-  refine ⟨fun h0 h15 h16 => blockOn_noRepoll h h0 h15 h16, ?_, ?_⟩
+                (st = 2 ∧ d = true ∧ s.didSpur = false ∧ s.spurious = true)))) ∧
+    (mode = 4 → c.stage ≠ 0 → c.stage ≠ 16 →
+      ∀ t, (w'.ctlOf t).stage = 10 → (w.ctlOf t).stage = 10) ∧
+    ((c.stage ≠ 15 ∨ mode = 4) → ∀ t, (w'.ctlOf t).stage = 16 → (w.ctlOf t).stage = 16) := by
+  refine ⟨fun h0 h15 h16 => blockOn_noRepoll h h0 h15 h16, ?_, ?_, ?_,
+    fun h15 => blockOn_noWait h h15⟩
   · intro hs
     rw [blockOn_stage16 w c f mode hs] at h
     obtain ⟨w1, h1, h2⟩ := bind_ok h
@@ -66,16 +99,24 @@ theorem BlockOn.repolls_only_after_wake (w w' : World) (c : TCtl) (f mode : Nat)
   · intro hs
     rw [blockOn_stage15 w c f mode hs] at h
     obtain ⟨⟨w1, r⟩, h1, h2⟩ := bind_ok h
-    refine ⟨w1, r, h1, ?_, ?_⟩
+    refine ⟨w1, r, h1, ?_, ?_, ?_⟩
     · intro hr
       subst hr
-      exact h2
-    · intro hr
-      have hne : (r == Ret.val 1) = false := by simpa using hr
-      simp only [hne, Bool.false_eq_true, if_false] at h2
+      simpa using h2
+    · intro hr hm
+      have hne : (r == World.pollTarget mode) = false := by simpa using hr
+      subst hm
+      simpa [hne] using h2
+    · intro hr hm
+      have hne : (r == World.pollTarget mode) = false := by simpa using hr
+      have hm' : (mode == 4) = false := by simpa using hm
+      simp only [hne, hm', Bool.false_eq_true, if_false] at h2
       obtain ⟨⟨w2, st⟩, h3, h4⟩ := bind_ok h2
       cases h4
       exact ⟨w2, st, h3, rfl, fun s hn => Notify.wait_first_half_object hn h3⟩
+  · intro hm h0 h16
+    subst hm
+    exact blockOn_noRepoll4 h h0 h16
 
 /-- … and the spurious return happens at most once per `block_on`: every `block_on` creates its
 own `Notify` (stage 0: a fresh last object, `spurious := true`, `did_spur = false`), and after one
@@ -107,53 +148,106 @@ theorem BlockOn.spurious_repoll_once :
     show (w.exec.objs ++ [_]) ++ [_] = _
     simp
 
-/-- no other operation of the future protocol moves a thread into the poll stage -/
+theorem IsCellOp_spelled_out (op : Op) :
+    IsCellOp op ↔ (∃ ci, op = .cellReadBegin ci) ∨ (∃ ci, op = .cellReadEnd ci) ∨
+      (∃ ci v, op = .cellWriteBegin ci v) ∨ (∃ ci, op = .cellWriteEnd ci) := by
+  cases op <;> simp [IsCellOp]
+
+/-- no other operation of the future protocol (`wake`, `wakeref`, `wakeq`, `dropwaker`, `awwake`, `awtake`,
+`wclone`, `wakeh`) and no operation of a cell section moves a thread into the poll stage -/
 theorem BlockOn.other_ops_never_repoll (w w' : World) (c : TCtl) (f : Nat) :
-    (∀ b, w.wakeStage c f b = .ok w' → ∀ t, (w'.ctlOf t).stage = 10 → (w.ctlOf t).stage = 10) ∧
+    (∀ b st, w.wakeStage c f b st = .ok w' → ∀ t, (w'.ctlOf t).stage = 10 → (w.ctlOf t).stage = 10) ∧
     (w.runOp c (.dropWaker f) = .ok w' → ∀ t, (w'.ctlOf t).stage = 10 → (w.ctlOf t).stage = 10) ∧
-    (w.runOp c (.awWake f) = .ok w' → ∀ t, (w'.ctlOf t).stage = 10 → (w.ctlOf t).stage = 10) :=
-  ⟨fun _ h => wake_noRepoll h, fun h => (dropWaker_frames h).1, fun h => (awWake_frames h).1⟩
+    (w.runOp c (.awWake f) = .ok w' → ∀ t, (w'.ctlOf t).stage = 10 → (w.ctlOf t).stage = 10) ∧
+    (w.runOp c (.wakeQ f) = .ok w' → ∀ t, (w'.ctlOf t).stage = 10 → (w.ctlOf t).stage = 10) ∧
+    (w.runOp c (.awTake f) = .ok w' → ∀ t, (w'.ctlOf t).stage = 10 → (w.ctlOf t).stage = 10) ∧
+    (w.runOp c (.wClone f) = .ok w' → ∀ t, (w'.ctlOf t).stage = 10 → (w.ctlOf t).stage = 10) ∧
+    (w.runOp c (.wakeH f) = .ok w' → ∀ t, (w'.ctlOf t).stage = 10 → (w.ctlOf t).stage = 10) ∧
+    (∀ op, IsCellOp op → w.runOp c op = .ok w' →
+      ∀ t, (w'.ctlOf t).stage = 10 → (w.ctlOf t).stage = 10) :=
+  ⟨fun _ _ h => wake_noRepoll h, fun h => (dropWaker_frames h).1, fun h => (awWake_frames h).1,
+    fun h => wake_noRepoll (by rwa [wakeQ_eq] at h), fun h => (awTake_frames h).1,
+    fun h => (wClone_frames h).1, fun h => (wakeH_frames h).1, fun _ hop h => (cellOp_frames hop h).1⟩
 
 /-! ## 2. `BlockOn.wake_not_lost` -/
 
-/-- A wake that found a registered waker notifies the `block_on`'s `Notify`.  `wake` (by value):
-stage 2 takes the waker out of the slot under the slot's mutex and, if there was one, goes to
-stage 3 = `notifyEffect`; `wakeref` (by reference): stage 2 finds a waker and goes to stage 5 =
-`notifyEffect` while still holding the mutex, then unlocks; `AtomicWaker::wake` (`.awWake`): stage 2
-takes the waker under the `AtomicWaker`'s mutex and, if there was one, goes to stage 3 =
-`notifyEffect`.  And `notifyEffect` sets `notified := true` (releasing the waker's clocks into the
-object). -/
+/-- A wake that found a registered waker notifies the `Notify` of the `block_on` that waker belongs to.
+`wake` (by value): stage 2 takes the waker out of the slot under the slot's mutex and, if there was one, goes to
+stage 3 = `notifyEffect`; `wakeref` / `wakeq` (by reference; `wakeq` is `wakeref` without the flag store): stage
+2 finds a waker and goes to stage 5 = `notifyEffect` while still holding the mutex, then unlocks.  Stage 2 hands
+the waker it found — `(arc, notify)` of the `block_on` in progress — to the later stages through the acting
+thread's `taken` / `takenNotify`, and those are what stages 3 / 5 notify.  `AtomicWaker::wake` (`.awWake`): stage
+2 takes the waker under the `AtomicWaker`'s mutex and, if there was one, goes to stage 3 = `notifyEffect` on
+the `Notify` handed over by stage 2 (see `AtomicWaker.wake_most_recent`).  `wakeh`: stage 1 = `notifyEffect` on
+the `Notify` of the clone the thread holds (recorded by `wclone`: `(arc, notify)` of the `block_on` whose waker
+sat in the slot).  And `notifyEffect` sets `notified := true` (releasing the waker's clocks into the object). -/
 theorem BlockOn.wake_not_lost (w : World) (c : TCtl) (f : Nat) :
-    (∀ b, c.stage = 3 → w.wakeStage c f b = (do
-      let w1 ← w.notifyEffect (w.futs.getD f {}).notify
-      (w1.setStage 4).branch (w1.arcInfo (w.futs.getD f {}).arc).obj .arcDec)) ∧
-    (∀ b, 5 ≤ c.stage → w.wakeStage c f b = (do
-      let w1 ← w.notifyEffect (w.futs.getD f {}).notify
+    (∀ b st, c.stage = 3 → w.wakeStage c f b st = (do
+      let w1 ← w.notifyEffect c.takenNotify
+      (w1.setStage 4).branch (w1.arcInfo c.taken).obj .arcDec)) ∧
+    (∀ b st, 5 ≤ c.stage → w.wakeStage c f b st = (do
+      let w1 ← w.notifyEffect c.takenNotify
       let w2 ← w1.releaseLock (w.futs.getD f {}).slotMutex
       pure (w2.complete .unit))) ∧
     (c.stage = 3 → w.runOp c (.awWake f) = (do
-      let w1 ← w.notifyEffect (w.futs.getD f {}).notify
-      (w1.setStage 4).branch (w1.arcInfo (w.futs.getD f {}).arc).obj .arcDec)) ∧
-    (∀ b, c.stage = 2 → w.wakeStage c f b = (do
+      let w1 ← w.notifyEffect c.takenNotify
+      (w1.setStage 4).branch (w1.arcInfo c.taken).obj .arcDec)) ∧
+    (∀ b st, c.stage = 2 → w.wakeStage c f b st = (do
       let (w1, okk) ← w.postAcquire (w.futs.getD f {}).slotMutex
       if !okk then throw .expectedLock
+      let w2 := w1.modCtl w1.tid fun c =>
+        { c with taken := (w.futs.getD f {}).arc, takenNotify := (w.futs.getD f {}).notify }
       if b then
-        let w2 := w1.modFut f fun s => { s with slot := false }
-        let w3 ← w2.releaseLock (w.futs.getD f {}).slotMutex
-        if (w1.futs.getD f {}).slot then (w3.setStage 3).branch (w.futs.getD f {}).notify .opaque
-        else pure (w3.complete .unit)
+        let w3 := w2.modFut f fun s => { s with slot := false }
+        let w4 ← w3.releaseLock (w.futs.getD f {}).slotMutex
+        if (w1.futs.getD f {}).slot then (w4.setStage 3).branch (w.futs.getD f {}).notify .opaque
+        else pure (w4.complete .unit)
       else
-        if (w1.futs.getD f {}).slot then (w1.setStage 5).branch (w.futs.getD f {}).notify .opaque
+        if (w1.futs.getD f {}).slot then (w2.setStage 5).branch (w.futs.getD f {}).notify .opaque
         else do
-          let w3 ← w1.releaseLock (w.futs.getD f {}).slotMutex
-          pure (w3.complete .unit))) ∧
+          let w4 ← w2.releaseLock (w.futs.getD f {}).slotMutex
+          pure (w4.complete .unit))) ∧
+    (∀ b st w', c.stage = 2 → w.wakeStage c f b st = .ok w' → f < w.futs.length →
+      w.tid < w.ctl.length →
+      (∃ w1, w.postAcquire (w.futs.getD f {}).slotMutex = .ok (w1, true)) ∧
+      (w'.ctlOf w.tid).taken = (w.futs.getD f {}).arc ∧
+      (w'.ctlOf w.tid).takenNotify = (w.futs.getD f {}).notify ∧
+      ((w.futs.getD f {}).slot = true → (w'.ctlOf w.tid).stage = if b then 3 else 5) ∧
+      ((w.futs.getD f {}).slot = false →
+        (w'.ctlOf w.tid).stage = 0 ∧ (w'.ctlOf w.tid).pc = (w.ctlOf w.tid).pc + 1) ∧
+      (b = true → (w'.futs.getD f {}).slot = false)) ∧
+    (w.runOp c (.wakeQ f) = w.wakeStage c f false false) ∧
+    (c.stage = 0 → w.wakeStage c f false false = (do
+      let m ← w.getMutex (w.futs.getD f {}).slotMutex
+      (w.setStage 2).branch (w.futs.getD f {}).slotMutex .opaque (block := m.lock.isSome))) ∧
+    (c.held.lookup f = none → w.runOp c (.wakeH f) = pure (w.complete .unit)) ∧
+    (∀ a n, c.held.lookup f = some (a, n) →
+      (c.stage = 0 → w.runOp c (.wakeH f) = (w.setStage 1).branch n .opaque) ∧
+      (c.stage = 1 → w.runOp c (.wakeH f) = (do
+        let w1 ← w.notifyEffect n
+        (w1.setStage 2).branch (w1.arcInfo a).obj .arcDec)) ∧
+      (2 ≤ c.stage → w.runOp c (.wakeH f) = (do
+        let w1 ← w.wakerDrop a
+        let w2 := w1.modCtl w1.tid fun c => { c with held := c.held.filter (·.1 != f) }
+        pure (w2.complete .unit)))) ∧
+    (∀ w', 2 ≤ c.stage → w.runOp c (.wClone f) = .ok w' → w.tid < w.ctl.length →
+      (∃ w1, w.wakerClone (w.futs.getD f {}).arc = .ok w1) ∧
+      (w'.ctlOf w.tid).held =
+        (f, (w.futs.getD f {}).arc, (w.futs.getD f {}).notify) ::
+          (w.ctlOf w.tid).held.filter (·.1 != f) ∧
+      w'.futs = w.futs) ∧
     (∀ o s, w.exec.objs[o]? = some (.notify s) →
       ∃ w1, w.notifyEffect o = .ok w1 ∧
         w1.exec.objs[o]? = some (.notify { s with
           sync := s.sync.store w.ths.activeT.released w.ths.caus .rel, notified := true }) ∧
         w.ths.caus.le (s.sync.store w.ths.activeT.released w.ths.caus .rel).hb) := by
-  refine ⟨fun b hs => wake_stage3 w c f b hs, fun b hs => wake_stage5 w c f b hs,
-    fun hs => awWake_stage3 w c f hs, fun b hs => wake_stage2 w c f b hs, ?_⟩
+  refine ⟨fun b st hs => wake_stage3 w c f b st hs, fun b st hs => wake_stage5 w c f b st hs,
+    fun hs => awWake_stage3 w c f hs, fun b st hs => wake_stage2 w c f b st hs,
+    fun b st w' hs h hf ht => wake_take hs h hf ht, wakeQ_eq w c f,
+    fun hs => wake_stage0_quiet w c f false hs, fun hh => wakeH_none w c f hh,
+    fun a n hh => ⟨fun hs => wakeH_stage0 w c f a n hh hs, fun hs => wakeH_stage1 w c f a n hh hs,
+      fun hs => wakeH_stage2 w c f a n hh hs⟩,
+    fun w' hs h ht => wClone_held hs h ht, ?_⟩
   intro o s hn
   obtain ⟨he, hle⟩ := Notify.notify_effect w o s hn
   refine ⟨_, he, ?_, hle⟩
@@ -162,7 +256,7 @@ theorem BlockOn.wake_not_lost (w : World) (c : TCtl) (f : Nat) :
 /-- … so the wake-up is not lost: once `notifyEffect` ran on the `block_on`'s `Notify` (object `n`),
 the flag stays set through any non-consuming steps of the object (further notifications, first
 halves of `wait`, access records), and a `block_on` that then reaches its wait (stage 15, flag load
-≠ 1) is NOT blocked by `notifyWait1` (unless it takes its one spurious return) and its stage 16
+≠ ready) is NOT blocked by `notifyWait1` (unless it takes its one spurious return) and its stage 16
 succeeds: it polls again and sees the flag (`Notify.flag_not_lost` of C08 for the object `n`). -/
 theorem BlockOn.wake_makes_wait_nonblocking {wN wN' wW : World} {n : Nat} {s0 s1 s2 : NotifySt}
     (h0 : wN.exec.objs[n]? = some (.notify s0)) (hn : wN.notifyEffect n = .ok wN')
@@ -181,55 +275,98 @@ theorem CompletesOnlyWith_spelled_out (r : Ret) (w w' : World) :
       (w'.events = w.events ∨
         (w'.events.tail = w.events ∧ w'.events.head?.map (·.ret) = some r)) := Iff.rfl
 
-/-- `block_on` returns the future's output.  A flag load that returns 1 (first check, stage 11, or
-second check, stage 15) proceeds to the return path (stage 40).  The return path: 40 drops the
-`block_on`'s own handle and locks the slot's / the `AtomicWaker`'s mutex (→ 45 / 44), 45 / 44 take
-a still registered waker out (→ 43 drops it) and complete.  The operation completes (records an
-event) in NO stage other than 43, 44, 45, and always with the result `.val 7` (the scripted
-future's output). -/
+/-- `block_on` returns the future's output.  A flag load that returns the ready value (first check, stage 11,
+or second check, stage 15) proceeds to the return path (stage 40).  The return path: 40 drops the
+`block_on`'s own handle and — slot modes / mode 1 — locks the slot's / the `AtomicWaker`'s mutex (→ 45 / 44),
+45 / 44 take a still registered waker out (→ 43 / 46 drop it) and complete; modes 3 and 4 complete in stage 40
+(the registration stays).  The operation completes (records an event) in NO stage other than 40 (modes 3, 4
+only), 41, 43, 44, 45, 46, and with the result `.val 7` (the scripted future's output) in every stage but 41.
+Stage 41 completes with `.val 0` ("pending"); it is entered ONLY from stage 15 of a poll-once call (mode 4)
+whose flag load did not return the ready value: in every other mode `block_on` returns only `.val 7`, and a
+poll-once call returns 0 only after its one poll found the future pending. -/
 theorem BlockOn.returns_output (w w' : World) (c : TCtl) (f mode : Nat)
     (h : w.blockOnStage c f mode = .ok w') :
     ((c.stage = 11 ∨ c.stage = 15) →
-      ∃ w1 r, w.primEffect f (.load .acq) = .ok (w1, r) ∧
-        (r = .val 1 →
+      ∃ w1 r, w.primEffect f (World.pollPrim mode) = .ok (w1, r) ∧
+        (r = World.pollTarget mode →
           (w1.setStage 40).branch (w.arcInfo (w.futs.getD f {}).arc).obj .arcDec = .ok w')) ∧
-    (c.stage ≠ 43 → c.stage ≠ 44 → c.stage ≠ 45 → w'.events = w.events) ∧
-    CompletesOnlyWith (.val 7) w w' ∧
+    (c.stage ≠ 40 → c.stage ≠ 41 → c.stage ≠ 43 → c.stage ≠ 44 → c.stage ≠ 45 → c.stage ≠ 46 →
+      w'.events = w.events) ∧
+    (c.stage = 40 → mode ≠ 3 → mode ≠ 4 → w'.events = w.events) ∧
+    (c.stage ≠ 41 → CompletesOnlyWith (.val 7) w w') ∧
+    (c.stage = 41 → CompletesOnlyWith (.val 0) w w') ∧
+    ((c.stage ≠ 15 ∨ mode ≠ 4) → ∀ t, (w'.ctlOf t).stage = 41 → (w.ctlOf t).stage = 41) ∧
+    (c.stage = 15 → mode = 4 →
+      ∃ w1 r, w.primEffect f (World.pollPrim mode) = .ok (w1, r) ∧
+        (r ≠ World.pollTarget mode →
+          (w1.setStage 41).branch (w.arcInfo (w.futs.getD f {}).arc).obj .arcDec = .ok w')) ∧
     (c.stage = 40 → ∃ w1, w.wakerDrop (w.futs.getD f {}).arc = .ok w1 ∧
-      ((mode = 0 ∧ ∃ m, w1.getMutex (w.futs.getD f {}).slotMutex = .ok m ∧
+      ((World.slotMode mode = true ∧ ∃ m, w1.getMutex (w.futs.getD f {}).slotMutex = .ok m ∧
           (w1.setStage 45).branch (w.futs.getD f {}).slotMutex .opaque (block := m.lock.isSome)
             = .ok w') ∨
-       (mode ≠ 0 ∧ ∃ m, w1.getMutex (w.futs.getD f {}).awMutex = .ok m ∧
+       (World.slotMode mode = false ∧ (mode = 3 ∨ mode = 4) ∧ w' = w1.complete (.val 7)) ∨
+       (World.slotMode mode = false ∧ mode ≠ 3 ∧ mode ≠ 4 ∧
+          ∃ m, w1.getMutex (w.futs.getD f {}).awMutex = .ok m ∧
           (w1.setStage 44).branch (w.futs.getD f {}).awMutex .opaque (block := m.lock.isSome)
             = .ok w'))) ∧
+    (c.stage = 41 → ∃ w1, w.wakerDrop (w.futs.getD f {}).arc = .ok w1 ∧
+      w' = w1.complete (.val 0)) ∧
     (c.stage = 43 → ∃ w1, w.wakerDrop (w.futs.getD f {}).arc = .ok w1 ∧
-      w' = w1.complete (.val 7)) := by
-  obtain ⟨he1, he2⟩ := blockOn_events h
-  refine ⟨?_, he1, he2, ?_, ?_⟩
+      w' = w1.complete (.val 7)) ∧
+    (c.stage = 46 → ∃ w1, w.wakerDrop c.taken = .ok w1 ∧ w' = w1.complete (.val 7)) := by
+  obtain ⟨he1, he2, he3, he4⟩ := blockOn_events h
+  refine ⟨?_, he1, he2, he3, he4, fun h15 => blockOn_noPending h h15, ?_, ?_, ?_, ?_, ?_⟩
   · rintro (hs | hs)
     · rw [blockOn_stage11 w c f mode hs] at h
       obtain ⟨⟨w1, r⟩, h1, h2⟩ := bind_ok h
       refine ⟨w1, r, h1, fun hr => ?_⟩
-      subst hr; exact h2
+      subst hr; simpa using h2
     · rw [blockOn_stage15 w c f mode hs] at h
       obtain ⟨⟨w1, r⟩, h1, h2⟩ := bind_ok h
       refine ⟨w1, r, h1, fun hr => ?_⟩
-      subst hr; exact h2
+      subst hr; simpa using h2
+  · intro hs hm
+    rw [blockOn_stage15 w c f mode hs] at h
+    obtain ⟨⟨w1, r⟩, h1, h2⟩ := bind_ok h
+    refine ⟨w1, r, h1, fun hr => ?_⟩
+    have hne : (r == World.pollTarget mode) = false := by simpa using hr
+    subst hm
+    simpa [hne] using h2
   · intro hs
     rw [blockOn_stage40 w c f mode hs] at h
     obtain ⟨w1, h1, h2⟩ := bind_ok h
     refine ⟨w1, h1, ?_⟩
-    by_cases hm : mode = 0
-    · subst hm
-      simp only [beq_self_eq_true, if_true] at h2
+    cases hsm : World.slotMode mode with
+    | true =>
+      simp only [hsm, if_true] at h2
       obtain ⟨m, h3, h4⟩ := bind_ok h2
       exact .inl ⟨rfl, m, h3, h4⟩
-    · have hne : (mode == 0) = false := by simpa using hm
-      simp only [hne, Bool.false_eq_true, if_false] at h2
-      obtain ⟨m, h3, h4⟩ := bind_ok h2
-      exact .inr ⟨hm, m, h3, h4⟩
+    | false =>
+      simp only [hsm, Bool.false_eq_true, if_false] at h2
+      by_cases hm : mode = 3 ∨ mode = 4
+      · have hb : (mode == 3 || mode == 4) = true := by simpa using hm
+        simp only [hb, if_true] at h2
+        cases h2
+        exact .inr (.inl ⟨rfl, hm, rfl⟩)
+      · have hb : (mode == 3 || mode == 4) = false := by
+          cases hbb : (mode == 3 || mode == 4) with
+          | false => rfl
+          | true => exact absurd (by simpa using hbb) hm
+        simp only [hb, Bool.false_eq_true, if_false] at h2
+        obtain ⟨m, h3, h4⟩ := bind_ok h2
+        exact .inr (.inr ⟨rfl, fun e => hm (.inl e), fun e => hm (.inr e), m, h3, h4⟩)
+  · intro hs
+    rw [blockOn_stage41 w c f mode hs] at h
+    obtain ⟨w1, h1, h2⟩ := bind_ok h
+    cases h2
+    exact ⟨w1, h1, rfl⟩
   · intro hs
     rw [blockOn_stage43 w c f mode hs] at h
+    obtain ⟨w1, h1, h2⟩ := bind_ok h
+    cases h2
+    exact ⟨w1, h1, rfl⟩
+  · intro hs
+    rw [blockOn_stage46 w c f mode hs] at h
     obtain ⟨w1, h1, h2⟩ := bind_ok h
     cases h2
     exact ⟨w1, h1, rfl⟩
@@ -242,21 +379,27 @@ theorem AwKept_spelled_out (w w' : World) :
   ⟨Iff.rfl, Iff.rfl⟩
 
 /-- The `AtomicWaker`'s content (`awWaker`) is written only under its mutex.
-(a) No stage of `block_on` other than 21 (register) and 44 (take at return), no stage of `wake` /
-`wakeref` / `dropwaker`, and no stage of `.awWake` other than 2 changes any `awWaker`.
+(a) No stage of `block_on` other than 21 (register) and 44 (take at return, mode 1), no stage of `wake` /
+`wakeref` / `wakeq` / `dropwaker` / `wclone` / `wakeh`, no stage of `.awWake` other than 2 and no stage of
+`awtake` other than 1 changes any `awWaker`.
 (b) Stage 21 is `postAcquire` on the `AtomicWaker`'s mutex (the try-lock).  Held by someone else:
 nothing is written and the registration wakes ITS OWN waker (→ stage 22 = `notifyEffect` on the
 same `Notify`, 23 drops the clone and yields, → second flag check): it "will itself observe the
-wake".  Free: the mutex is now held by the registering thread, THEN `awWaker := true`, and the
-mutex is released in the same stage, or — when an older waker has to be dropped — in stage 25
-(`wakerDrop`, `releaseLock`).
-(c) `.awWake` stage 2 and `block_on` stage 44: `postAcquire` must succeed ("expected to be able to
-acquire lock" otherwise), THEN `awWaker := false`, THEN `releaseLock` — in the same stage. -/
+wake".  Free: the mutex is now held by the registering thread, THEN `awWaker := true` (with the identity of the
+waker: `awArc`, `awNotify`), and the mutex is released in the same stage, or — when an older waker has to be
+dropped — in stage 25 (`wakerDrop` of the older waker, handed over in `c.taken`, then `releaseLock`).
+(c) `.awWake` stage 2, `awtake` stage 1 and `block_on` stage 44: `postAcquire` must succeed ("expected to be
+able to acquire lock" otherwise), THEN `awWaker := false`, THEN `releaseLock` — in the same stage; the waker
+taken out is handed to the next stage in `c.taken` (and `c.takenNotify`). -/
 theorem AtomicWaker.lock_protocol (w w' : World) (c : TCtl) (f mode : Nat) :
     (w.blockOnStage c f mode = .ok w' → c.stage ≠ 21 → c.stage ≠ 44 → AwKept w w') ∧
-    (∀ b, w.wakeStage c f b = .ok w' → AwKept w w') ∧
+    (∀ b st, w.wakeStage c f b st = .ok w' → AwKept w w') ∧
     (w.runOp c (.dropWaker f) = .ok w' → AwKept w w') ∧
     (w.runOp c (.awWake f) = .ok w' → c.stage ≠ 2 → AwKept w w') ∧
+    (w.runOp c (.wakeQ f) = .ok w' → AwKept w w') ∧
+    (w.runOp c (.awTake f) = .ok w' → c.stage ≠ 1 → AwKept w w') ∧
+    (w.runOp c (.wClone f) = .ok w' → AwKept w w') ∧
+    (w.runOp c (.wakeH f) = .ok w' → AwKept w w') ∧
     (∀ m, c.stage = 21 → w.exec.objs[(w.futs.getD f {}).awMutex]? = some (.mutex m) →
       (m.lock.isSome = true →
         w.postAcquire (w.futs.getD f {}).awMutex = .ok (w, false) ∧
@@ -266,12 +409,14 @@ theorem AtomicWaker.lock_protocol (w w' : World) (c : TCtl) (f mode : Nat) :
         w.postAcquire (w.futs.getD f {}).awMutex = .ok (w1, true) ∧
         w1.exec.objs[(w.futs.getD f {}).awMutex]? = some (.mutex { m with lock := some w.tid }) ∧
         w.blockOnStage c f mode =
-          (if (w.futs.getD f {}).awWaker then
-            ((w1.modFut f fun s => { s with awWaker := true }).setStage 25).branch
-              (w.arcInfo (w.futs.getD f {}).arc).obj .arcDec
+          (let w2 := w1.modFut f fun s =>
+              { s with awWaker := true, awArc := (w.futs.getD f {}).arc,
+                       awNotify := (w.futs.getD f {}).notify }
+           if (w.futs.getD f {}).awWaker then
+            let w3 := w2.modCtl w2.tid fun c => { c with taken := (w.futs.getD f {}).awArc }
+            (w3.setStage 25).branch (w3.arcInfo (w.futs.getD f {}).awArc).obj .arcDec
           else do
-            let w3 ← (w1.modFut f fun s => { s with awWaker := true }).releaseLock
-              (w.futs.getD f {}).awMutex
+            let w3 ← w2.releaseLock (w.futs.getD f {}).awMutex
             pure (w3.setStage 14)))) ∧
     (c.stage = 22 → w.blockOnStage c f mode = (do
       let w1 ← w.notifyEffect (w.futs.getD f {}).notify
@@ -280,7 +425,7 @@ theorem AtomicWaker.lock_protocol (w w' : World) (c : TCtl) (f mode : Nat) :
       let w1 ← w.wakerDrop (w.futs.getD f {}).arc
       (w1.setStage 14).yieldNow)) ∧
     (c.stage = 25 → w.blockOnStage c f mode = (do
-      let w1 ← w.wakerDrop (w.futs.getD f {}).arc
+      let w1 ← w.wakerDrop c.taken
       let w2 ← w1.releaseLock (w.futs.getD f {}).awMutex
       pure (w2.setStage 14))) ∧
     (c.stage = 2 → w.runOp c (.awWake f) = (do
@@ -289,7 +434,9 @@ theorem AtomicWaker.lock_protocol (w w' : World) (c : TCtl) (f mode : Nat) :
       let w2 := w1.modFut f fun s => { s with awWaker := false }
       let w3 ← w2.releaseLock (w.futs.getD f {}).awMutex
       if (w1.futs.getD f {}).awWaker then
-        (w3.setStage 3).branch (w3.futs.getD f {}).notify .opaque
+        let w4 := w3.modCtl w3.tid fun c =>
+          { c with taken := (w.futs.getD f {}).awArc, takenNotify := (w.futs.getD f {}).awNotify }
+        (w4.setStage 3).branch (w.futs.getD f {}).awNotify .opaque
       else pure (w3.complete .unit))) ∧
     (c.stage = 44 → w.blockOnStage c f mode = (do
       let (w1, okk) ← w.postAcquire (w.futs.getD f {}).awMutex
@@ -297,13 +444,25 @@ theorem AtomicWaker.lock_protocol (w w' : World) (c : TCtl) (f mode : Nat) :
       let w2 := w1.modFut f fun s => { s with awWaker := false }
       let w3 ← w2.releaseLock (w.futs.getD f {}).awMutex
       if (w1.futs.getD f {}).awWaker then
-        (w3.setStage 43).branch (w.arcInfo (w.futs.getD f {}).arc).obj .arcDec
-      else pure (w3.complete (.val 7)))) := by
-  refine ⟨fun h h1 h2 => blockOn_awKept h h1 h2, fun _ h => wake_awKept h,
-    fun h => (dropWaker_frames h).2.1, fun h h2 => (awWake_frames h).2.2 h2, ?_,
+        let w4 := w3.modCtl w3.tid fun c => { c with taken := (w.futs.getD f {}).awArc }
+        (w4.setStage 46).branch (w4.arcInfo (w.futs.getD f {}).awArc).obj .arcDec
+      else pure (w3.complete (.val 7)))) ∧
+    (c.stage = 1 → w.runOp c (.awTake f) = (do
+      let (w1, okk) ← w.postAcquire (w.futs.getD f {}).awMutex
+      if !okk then throw .expectedLock
+      let w2 := w1.modFut f fun s => { s with awWaker := false }
+      let w3 ← w2.releaseLock (w.futs.getD f {}).awMutex
+      if (w1.futs.getD f {}).awWaker then
+        let w4 := w3.modCtl w3.tid fun c => { c with taken := (w.futs.getD f {}).awArc }
+        (w4.setStage 2).branch (w4.arcInfo (w.futs.getD f {}).awArc).obj .arcDec
+      else pure (w3.complete .unit))) := by
+  refine ⟨fun h h1 h2 => blockOn_awKept h h1 h2, fun _ _ h => wake_awKept h,
+    fun h => (dropWaker_frames h).2.1, fun h h2 => (awWake_frames h).2.2 h2,
+    fun h => wake_awKept (by rwa [wakeQ_eq] at h), fun h h1 => (awTake_frames h).2.2.1 h1,
+    fun h => (wClone_frames h).2.2.1, fun h => (wakeH_frames h).2.2.1, ?_,
     fun hs => blockOn_stage22 w c f mode hs, fun hs => blockOn_stage23 w c f mode hs,
     fun hs => blockOn_stage25 w c f mode hs, fun hs => awWake_stage2 w c f hs,
-    fun hs => blockOn_stage44 w c f mode hs⟩
+    fun hs => blockOn_stage44 w c f mode hs, fun hs => awTake_stage1 w c f hs⟩
   intro m hs hm
   constructor
   · intro hl
@@ -325,19 +484,95 @@ theorem AtomicWaker.lock_protocol (w w' : World) (c : TCtl) (f mode : Nat) :
       exact Sy.getElem?_set_self' _ _ _ _ hm
     · rw [blockOn_stage21 w c f mode hs, hp]; rfl
 
-/-- The plain waker slot (`slot`, mode 0) is written only under its mutex `slotMutex`.
+theorem AwIdKept_spelled_out (w w' : World) :
+    AwIdKept w w' ↔ ∀ f', (w'.futs.getD f' {}).awArc = (w.futs.getD f' {}).awArc ∧
+      (w'.futs.getD f' {}).awNotify = (w.futs.getD f' {}).awNotify := Iff.rfl
+
+/-- `AtomicWaker::wake` wakes the MOST RECENTLY registered waker.
+(a) Registration, `block_on` stage 21 with the `AtomicWaker`'s lock obtained (`postAcquire … = (w1, true)`):
+afterwards the waker registered for `f` is the CURRENT call's — `awArc = arc`, `awNotify = notify` of the
+`block_on` in progress — whatever was registered before; a waker that was registered (possibly by an EARLIER
+`block_on`, whose `Arc` / `Notify` differ) is handed to stage 25 in `c.taken` and dropped there.  With the lock
+held by someone else nothing is registered (stage 22: the registration wakes its own waker).
+(b) WHICH waker is registered (`awArc`, `awNotify`) is written by NO other step: no stage of `block_on` other
+than 21, no stage of `wake` / `wakeref` / `wakeq` / `dropwaker` / `awwake` / `awtake` / `wclone` / `wakeh`, no
+cell-section operation.
+(c) Wake, `.awWake` stage 2 (lock obtained, else "expected to be able to acquire lock"): the slot is emptied and
+exactly the registered waker `(awArc, awNotify)` is handed to the later stages (`c.taken`, `c.takenNotify`);
+stage 3 is `notifyEffect c.takenNotify` — the `Notify` of the most recently registered waker is notified —
+and stage 4 drops that waker (`wakerDrop c.taken`).  With nothing registered the operation completes: nobody is
+woken. -/
+theorem AtomicWaker.wake_most_recent (w w' : World) (c : TCtl) (f mode : Nat)
+    (hf : f < w.futs.length) (ht : w.tid < w.ctl.length) :
+    (∀ w1, c.stage = 21 → w.postAcquire (w.futs.getD f {}).awMutex = .ok (w1, true) →
+      w.blockOnStage c f mode = .ok w' →
+      (w'.futs.getD f {}).awWaker = true ∧
+      (w'.futs.getD f {}).awArc = (w.futs.getD f {}).arc ∧
+      (w'.futs.getD f {}).awNotify = (w.futs.getD f {}).notify ∧
+      ((w.futs.getD f {}).awWaker = true →
+        (w'.ctlOf w.tid).taken = (w.futs.getD f {}).awArc ∧ (w'.ctlOf w.tid).stage = 25) ∧
+      ((w.futs.getD f {}).awWaker = false → (w'.ctlOf w.tid).stage = 14)) ∧
+    (∀ w1, c.stage = 21 → w.postAcquire (w.futs.getD f {}).awMutex = .ok (w1, false) →
+      w.blockOnStage c f mode = .ok w' → w'.futs = w.futs ∧ (w'.ctlOf w.tid).stage = 22) ∧
+    (c.stage = 25 → w.blockOnStage c f mode = (do
+      let w1 ← w.wakerDrop c.taken
+      let w2 ← w1.releaseLock (w.futs.getD f {}).awMutex
+      pure (w2.setStage 14))) ∧
+    (w.blockOnStage c f mode = .ok w' → c.stage ≠ 21 → AwIdKept w w') ∧
+    (∀ b st, w.wakeStage c f b st = .ok w' → AwIdKept w w') ∧
+    (w.runOp c (.dropWaker f) = .ok w' → AwIdKept w w') ∧
+    (w.runOp c (.awWake f) = .ok w' → AwIdKept w w') ∧
+    (w.runOp c (.wakeQ f) = .ok w' → AwIdKept w w') ∧
+    (w.runOp c (.awTake f) = .ok w' → AwIdKept w w') ∧
+    (w.runOp c (.wClone f) = .ok w' → AwIdKept w w') ∧
+    (w.runOp c (.wakeH f) = .ok w' → AwIdKept w w') ∧
+    (∀ op, IsCellOp op → w.runOp c op = .ok w' → AwIdKept w w') ∧
+    (c.stage = 2 → w.runOp c (.awWake f) = .ok w' →
+      (∃ w1, w.postAcquire (w.futs.getD f {}).awMutex = .ok (w1, true)) ∧
+      (w'.futs.getD f {}).awWaker = false ∧
+      ((w.futs.getD f {}).awWaker = true →
+        (w'.ctlOf w.tid).taken = (w.futs.getD f {}).awArc ∧
+        (w'.ctlOf w.tid).takenNotify = (w.futs.getD f {}).awNotify ∧
+        (w'.ctlOf w.tid).stage = 3) ∧
+      ((w.futs.getD f {}).awWaker = false →
+        (w'.ctlOf w.tid).stage = 0 ∧ (w'.ctlOf w.tid).pc = (w.ctlOf w.tid).pc + 1)) ∧
+    (c.stage = 3 → w.runOp c (.awWake f) = (do
+      let w1 ← w.notifyEffect c.takenNotify
+      (w1.setStage 4).branch (w1.arcInfo c.taken).obj .arcDec)) ∧
+    (4 ≤ c.stage → w.runOp c (.awWake f) = (do
+      let w1 ← w.wakerDrop c.taken
+      pure (w1.complete .unit))) := by
+  refine ⟨fun w1 hs hp h => blockOn_register hs hp h hf ht,
+    fun w1 hs hp h => blockOn_register_busy hs hp h ht,
+    fun hs => blockOn_stage25 w c f mode hs, fun h h21 => blockOn_awIdKept h h21,
+    fun _ _ h => wake_awIdKept h, fun h => dropWaker_awIdKept h, fun h => awWake_awIdKept h,
+    fun h => wake_awIdKept (by rwa [wakeQ_eq] at h), fun h => (awTake_frames h).2.2.2,
+    fun h => (wClone_frames h).2.2.2, fun h => (wakeH_frames h).2.2.2,
+    fun _ hop h => (cellOp_frames hop h).2.2.2, ?_,
+    fun hs => awWake_stage3 w c f hs, fun hs => awWake_stage4 w c f hs⟩
+  intro hs h
+  obtain ⟨h1, h2, _, _, h5, h6⟩ := awWake_take hs h hf ht
+  exact ⟨h1, h2, h5, h6⟩
+
+/-- The plain waker slot (`slot`, modes 0 and 2) is written only under its mutex `slotMutex`.
 (a) No stage of `block_on` other than 30 (register) and 45 (take at return), no stage of `wake`
-other than 2, no stage of `wakeref` at all, no stage of `dropwaker` other than 1, and no stage of
-`.awWake` changes any `slot`.
+other than 2, no stage of `wakeref` / `wakeq` / `wclone` / `wakeh` / `awtake` at all, no stage of `dropwaker`
+other than 1, and no stage of `.awWake` changes any `slot`.
 (b) In each of these four stages the write sits between a `postAcquire` on `slotMutex` that must
 succeed ("expected to be able to acquire lock" otherwise) and the `releaseLock` — in the same
 stage, or (register, an older waker has to be dropped) in stage 13 (`wakerDrop`, `releaseLock`);
-`wakeref` holds the mutex across its `notifyEffect` (stage 5) and never writes the slot. -/
+`wakeref` / `wakeq` hold the mutex across their `notifyEffect` (stage 5) and never write the slot; `wclone`
+READS the slot under the mutex (stage 1) and holds it across the waker's `ref_inc` (a scheduling point) until
+the clone is made (stage 2: `wakerClone`, `releaseLock`). -/
 theorem Slot.lock_protocol (w w' : World) (c : TCtl) (f mode : Nat) :
     (w.blockOnStage c f mode = .ok w' → c.stage ≠ 30 → c.stage ≠ 45 → SlotKept w w') ∧
-    (∀ b, w.wakeStage c f b = .ok w' → (c.stage ≠ 2 ∨ b = false) → SlotKept w w') ∧
+    (∀ b st, w.wakeStage c f b st = .ok w' → (c.stage ≠ 2 ∨ b = false) → SlotKept w w') ∧
     (w.runOp c (.dropWaker f) = .ok w' → c.stage ≠ 1 → SlotKept w w') ∧
     (w.runOp c (.awWake f) = .ok w' → SlotKept w w') ∧
+    (w.runOp c (.wakeQ f) = .ok w' → SlotKept w w') ∧
+    (w.runOp c (.awTake f) = .ok w' → SlotKept w w') ∧
+    (w.runOp c (.wClone f) = .ok w' → SlotKept w w') ∧
+    (w.runOp c (.wakeH f) = .ok w' → SlotKept w w') ∧
     (c.stage = 30 → w.blockOnStage c f mode = (do
       let (w1, okk) ← w.postAcquire (w.futs.getD f {}).slotMutex
       if !okk then throw .expectedLock
@@ -367,15 +602,33 @@ theorem Slot.lock_protocol (w w' : World) (c : TCtl) (f mode : Nat) :
       if (w1.futs.getD f {}).slot then
         (w3.setStage 2).branch (w3.arcInfo (w.futs.getD f {}).arc).obj .arcDec
       else pure (w3.complete .unit))) ∧
+    (c.stage = 1 → w.runOp c (.wClone f) = (do
+      let (w1, okk) ← w.postAcquire (w.futs.getD f {}).slotMutex
+      if !okk then throw .expectedLock
+      if (w1.futs.getD f {}).slot then
+        (w1.setStage 2).branch (w1.arcInfo (w.futs.getD f {}).arc).obj .arcInc
+      else do
+        let w2 ← w1.releaseLock (w.futs.getD f {}).slotMutex
+        pure (w2.complete (.val 0)))) ∧
+    (2 ≤ c.stage → w.runOp c (.wClone f) = (do
+      let w1 ← w.wakerClone (w.futs.getD f {}).arc
+      let w2 := w1.modCtl w1.tid fun c =>
+        { c with held := (f, (w.futs.getD f {}).arc, (w.futs.getD f {}).notify) ::
+                   c.held.filter (·.1 != f) }
+      let w3 ← w2.releaseLock (w.futs.getD f {}).slotMutex
+      pure (w3.complete (.val 1)))) ∧
     (∀ m, w.exec.objs[(w.futs.getD f {}).slotMutex]? = some (.mutex m) →
       (m.lock.isSome = true → w.postAcquire (w.futs.getD f {}).slotMutex = .ok (w, false)) ∧
       (m.lock = none → ∃ w1, w.postAcquire (w.futs.getD f {}).slotMutex = .ok (w1, true) ∧
         w1.exec.objs[(w.futs.getD f {}).slotMutex]? =
           some (.mutex { m with lock := some w.tid }))) := by
-  refine ⟨fun h h1 h2 => blockOn_slotKept h h1 h2, fun _ h h2 => wake_slotKept h h2,
+  refine ⟨fun h h1 h2 => blockOn_slotKept h h1 h2, fun _ _ h h2 => wake_slotKept h h2,
     fun h h1 => (dropWaker_frames h).2.2 h1, fun h => (awWake_frames h).2.1,
+    fun h => wake_slotKept (by rwa [wakeQ_eq] at h) (.inr rfl), fun h => (awTake_frames h).2.1,
+    fun h => (wClone_frames h).2.1, fun h => (wakeH_frames h).2.1,
     fun hs => blockOn_stage30 w c f mode hs, fun hs => blockOn_stage13 w c f mode hs,
-    fun hs => blockOn_stage45 w c f mode hs, fun hs => dropWaker_stage1 w c f hs, ?_⟩
+    fun hs => blockOn_stage45 w c f mode hs, fun hs => dropWaker_stage1 w c f hs,
+    fun hs => wClone_stage1 w c f hs, fun hs => wClone_stage2 w c f hs, ?_⟩
   intro m hm
   refine ⟨fun hl => C07.postAcquire_held hm hl, fun hl => ?_⟩
   obtain ⟨w1, hp, _, hfree⟩ := Lock.try_exact w _ m hm
@@ -388,12 +641,18 @@ theorem Slot.lock_protocol (w w' : World) (c : TCtl) (f mode : Nat) :
 /-! ## 5. `Waker.refcount_balance` -/
 
 /-- The waker's reference count.  `wakerClone` (the effect of `ref_inc`: registering a waker in the
-slot or in the `AtomicWaker`) adds one to `ref_cnt` of the `rt::Arc` object and to the strong count
-of the wrapped `std` `Arc`; `wakerDrop` (a taken / replaced / rejected clone, or the `block_on`'s
-own handle) is `refDecEffect` followed by the `Drop` glue `afterDec`: it takes one off both, fails
+slot or in the `AtomicWaker`, or `wclone`) adds one to `ref_cnt` of the `rt::Arc` object and to the strong count
+of the wrapped `std` `Arc`; `wakerDrop` (a taken / replaced / rejected clone, the `block_on`'s
+own handle, the clone woken by `wakeh`, the registration taken by `awtake`) is `refDecEffect` followed by the
+`Drop` glue `afterDec`: it takes one off both, fails
 with "Arc is already released" at count 0, and unregisters the allocation exactly when the count
 reaches 0 (then the `std` count was 1): each clone is matched by exactly one drop before the
-allocation goes away (`ArcObj.drop_once`, `ArcObj.refines_refcount_refDec` of C11). -/
+allocation goes away (`ArcObj.drop_once`, `ArcObj.refines_refcount_refDec` of C11).
+The three operations that move a reference without a `block_on`: `wclone` (+1: its last stage is ONE
+`wakerClone` of the slot's waker, recorded in `held`), `wakeh` (−1: its last stage is ONE `wakerDrop` of the
+clone held, which is forgotten; nothing if the thread holds none), `awtake` (−1: its last stage is ONE
+`wakerDrop` of the waker its stage 1 took out of the `AtomicWaker`, `c.taken = awArc`; stage 1 completes
+without a drop if nothing was registered). -/
 theorem Waker.refcount_balance (w w' : World) (a : Nat) (s : ArcSt) (ha : a < w.arcs.length)
     (hg : w.getArc (w.arcInfo a).obj = .ok s) :
     (w.wakerClone a = .ok
@@ -412,9 +671,35 @@ theorem Waker.refcount_balance (w w' : World) (a : Nat) (s : ArcSt) (ha : a < w.
       ∃ s', w'.getArc (w.arcInfo a).obj = .ok s' ∧ s'.refCnt + 1 = s.refCnt ∧
         (w'.arcInfo a).stdCount = (w.arcInfo a).stdCount - 1 ∧
         (w'.arcInfo a).registered = ((w.arcInfo a).registered && !(s'.refCnt == 0)) ∧
-        (s'.refCnt = 0 → (w.arcInfo a).registered = true ∧ (w.arcInfo a).stdCount = 1)) := by
+        (s'.refCnt = 0 → (w.arcInfo a).registered = true ∧ (w.arcInfo a).stdCount = 1)) ∧
+    (∀ (c : TCtl) (f : Nat), 2 ≤ c.stage → w.runOp c (.wClone f) = (do
+      let w1 ← w.wakerClone (w.futs.getD f {}).arc
+      let w2 := w1.modCtl w1.tid fun c =>
+        { c with held := (f, (w.futs.getD f {}).arc, (w.futs.getD f {}).notify) ::
+                   c.held.filter (·.1 != f) }
+      let w3 ← w2.releaseLock (w.futs.getD f {}).slotMutex
+      pure (w3.complete (.val 1)))) ∧
+    (∀ (c : TCtl) (f a' n : Nat), c.held.lookup f = some (a', n) → 2 ≤ c.stage →
+      w.runOp c (.wakeH f) = (do
+        let w1 ← w.wakerDrop a'
+        let w2 := w1.modCtl w1.tid fun c => { c with held := c.held.filter (·.1 != f) }
+        pure (w2.complete .unit))) ∧
+    (∀ (c : TCtl) (f : Nat), c.held.lookup f = none →
+      w.runOp c (.wakeH f) = pure (w.complete .unit)) ∧
+    (∀ (c : TCtl) (f : Nat), 2 ≤ c.stage → w.runOp c (.awTake f) = (do
+      let w1 ← w.wakerDrop c.taken
+      pure (w1.complete .unit))) ∧
+    (∀ (c : TCtl) (f : Nat), c.stage = 1 → w.runOp c (.awTake f) = .ok w' → f < w.futs.length →
+      w.tid < w.ctl.length →
+      (w'.futs.getD f {}).awWaker = false ∧
+      ((w.futs.getD f {}).awWaker = true →
+        (w'.ctlOf w.tid).taken = (w.futs.getD f {}).awArc ∧ (w'.ctlOf w.tid).stage = 2) ∧
+      ((w.futs.getD f {}).awWaker = false →
+        (w'.ctlOf w.tid).stage = 0 ∧ (w'.ctlOf w.tid).pc = (w.ctlOf w.tid).pc + 1)) := by
   refine ⟨wakerClone_eq hg, fun h => wakerClone_counts ha hg h, wakerDrop_eq w a, ?_,
-    fun h => wakerDrop_counts ha hg h⟩
+    fun h => wakerDrop_counts ha hg h, fun c f hs => wClone_stage2 w c f hs,
+    fun c f a' n hh hs => wakeH_stage2 w c f a' n hh hs, fun c f hh => wakeH_none w c f hh,
+    fun c f hs => awTake_stage2 w c f hs, fun c f hs h hf ht => (awTake_take hs h hf ht).2⟩
   obtain ⟨h1, h2, h3⟩ := ArcObj.refines_refcount_refDec w _ s hg
   constructor
   · intro h
@@ -447,6 +732,33 @@ def summary (p : Prog) : Nat × Bool × Bool :=
   (r.1.length, r.2 == .completed, r.1.all fun it => it.result.term.isNone &&
     (it.result.events.filter (fun e => e.tid == 0 && e.pc == 1)).map (·.ret) == [.val 7])
 
+/-- the poll-once program
+`cfg x=1 f=1 bound=<b> | T0: blockon 0 4; spawn 1; blockon 0 3; join 1; awtake 0 | T1: awwake 0`:
+the first call (poll-once) registers its waker in the `AtomicWaker` and returns 0 (pending); the second call
+(mode 3) replaces that registration by its own; `awwake` must wake the SECOND call's waker (the most recently
+registered one) — waking the first call's `Notify` would leave the second `block_on` blocked for ever; `awtake`
+drops the registration that mode 3 leaves behind (no leak). -/
+def pollOnce (b : Nat) : Prog :=
+  { cfg := { cfg with bound := some b },
+    threads := [[.blockOn 0 4, .spawn 1, .blockOn 0 3, .join 1, .awTake 0], [.awWake 0]] }
+
+/-- number of iterations, "every path explored", and: every iteration ends without a panic (no deadlock, no
+leak), the first `block_on` (thread 0, pc 0) returned `.val 0` and the second (pc 2) returned `.val 7` -/
+def pollOnceSummary (p : Prog) : Nat × Bool × Bool :=
+  let r := Check.loop p 1000 1 (Check.initExec p.cfg)
+  (r.1.length, r.2 == .completed, r.1.all fun it => it.result.term.isNone &&
+    (it.result.events.filter (fun e => e.tid == 0 && (e.pc == 0 || e.pc == 2))).map (·.ret)
+      == [.val 0, .val 7])
+
+/-- `T0: spawn 1; blockon 0 0; join 1 | T1: wclone 0; wake 0; wakeh 0` -/
+def heldClone : Prog :=
+  { cfg, threads := [[.spawn 1, .blockOn 0 0, .join 1], [.wClone 0, .wake 0, .wakeH 0]] }
+
+/-- `summary` and the set of results of `wclone` (thread 1, pc 0) over all iterations -/
+def heldCloneSummary (p : Prog) : (Nat × Bool × Bool) × List (List Ret) :=
+  (summary p, ((Check.loop p 1000 1 (Check.initExec p.cfg)).1.map fun it =>
+    (it.result.events.filter (fun e => e.tid == 1 && e.pc == 0)).map (·.ret)).eraseDups)
+
 end C20.Ex
 
 open C20.Ex in
@@ -472,5 +784,25 @@ theorem BlockOn.example_deadlock :
     (runIter { cfg, threads := [[.wake 0, .blockOn 0 0]] } (Check.initExec cfg) 300).events.map
       (fun e => (e.tid, e.pc, e.ret)) = [(0, 0, .unit), (0, 1, .val 7)] := by
   refine ⟨?_, ?_, ?_⟩ <;> decide +kernel
+
+open C20.Ex in
+/-- the poll-once program
+`cfg x=1 f=1 | T0: blockon 0 4; spawn 1; blockon 0 3; join 1; awtake 0 | T1: awwake 0`,
+the whole exploration of `Builder::check` with preemption bound 1 (13 executions) and 2 (46 executions): EVERY
+iteration ends without a deadlock and without a leak, the poll-once call returns 0 and the second call — whose
+waker replaced the first call's in the `AtomicWaker` — returns 7: `awwake` woke the most recently registered
+waker. -/
+theorem BlockOn.example_poll_once :
+    pollOnceSummary (pollOnce 1) = (13, true, true) ∧ pollOnceSummary (pollOnce 2) = (46, true, true) := by
+  constructor <;> decide +kernel
+
+open C20.Ex in
+/-- a kept clone: `T0: spawn 1; blockon 0 0; join 1 | T1: wclone 0; wake 0; wakeh 0`, the whole exploration with
+preemption bound 1 (18 executions).  `wclone` finds the waker registered (1) in some executions and not (0) in
+others; in EVERY execution `block_on` returns 7, nothing deadlocks and nothing leaks: the reference added by
+`wclone` is given back by `wakeh`. -/
+theorem BlockOn.example_held_clone :
+    heldCloneSummary heldClone = ((18, true, true), [[.val 1], [.val 0]]) := by
+  decide +kernel
 
 end LoomVerif
